@@ -110,6 +110,8 @@ def cases(tier):
             for w in ([(0, n) for n in shp], [(1, n - 1) for n in shp], [(0, 1) for n in shp],
                       [(n - 1, 1) for n in shp], [(0, n + 1) for n in shp]):
                 yield {"k": "view", "shape": list(shp), "win": [list(x) for x in w], "full": "medium"}
+    for shp in [[3000], [1100, 3], [12000]] + ([[2049, 2, 2], [70000]] if T else []):
+        yield {"k": "big", "shape": shp}
     yield {"k": "text", "shape": [3]}
     yield {"k": "text", "shape": [2, 2]}
 
@@ -272,6 +274,78 @@ def fmt(expr):
     return ", ".join(out)
 
 
+def big_exprs(n):
+    """index components for a long axis: strides that do not divide the usual block sizes, bounds around 255/256/1024"""
+    return [slice(None, None, 3), slice(None, None, 7), slice(5, n - 3, 100), slice(1, None, 2), slice(1023, 1027), slice(255, 257),
+            slice(n - 1, None), slice(-1030, -5, 5), 0, 255, 256, 1023, 1024, n - 1, -1, -n]
+
+
+def run_big(case, r):
+    """arrays and views that are NOT small: axes longer than 1024, strided reads and writes, scalar assignment to large
+    regions through views that start at an offset"""
+    shape = tuple(case["shape"])
+    env.install_seams()
+    env.reset_execution()
+    path = env.fresh_path("c06b_")
+    f = nix.File.open(path, nix.FileMode.Overwrite)
+    try:
+        b = f.create_block("b", "t")
+        size = int(np.prod(shape))
+        ref0 = (np.arange(size, dtype=np.float64) + 1).reshape(shape)
+        da = b.create_data_array("d", "t", data=ref0)
+        n = shape[0]
+        rest = [(slice(None),), (0,), (slice(None, None, 2),)] if len(shape) > 1 else [()]
+        windows = [None, (n // 4, n // 2), (1, n - 2), (1000, 24 if n > 1100 else 10)]
+        for win in windows:
+            if win is None:
+                tgt, refw, label = da, ref0, "array"
+            else:
+                starts = [win[0]] + [0] * (len(shape) - 1)
+                exts = [win[1]] + list(shape[1:])
+                tgt = da.get_slice(starts, exts, nix.DataSliceMode.Index)
+                refw = ref0[win[0]:win[0] + win[1]]
+                label = "view"
+            m = refw.shape[0]
+            for e0 in big_exprs(m):
+                for tail in rest:
+                    expr = (e0,) + tail if tail else e0
+                    r.evals += 1
+                    r.nontrivial += 1
+                    st, exp = np_eval(refw, expr)
+                    try:
+                        got = tgt[expr]
+                        gst = "ok"
+                    except IndexError:
+                        got, gst = None, "IndexError"
+                    except Exception as e:  # noqa
+                        got, gst = None, type(e).__name__
+                    compare_read(r, label + "-big", shape, win, expr, st, exp, gst, got)
+            # assignments: a scalar to the whole window / a strided part of it, an array to a strided part
+            for e0, val in ((slice(None), -1.0), (slice(None, None, 3), -2.0), (slice(3, m - 2, 7), None), (slice(m // 2, None), -3.0)):
+                expr = (e0,) + ((slice(None),) * (len(shape) - 1))
+                region = refw[expr]
+                vals = val if val is not None else (np.arange(region.size, dtype=np.float64) + 5000).reshape(region.shape)
+                ref = ref0.copy()
+                if win is None:
+                    ref[expr] = vals
+                else:
+                    ref[win[0]:win[0] + win[1]][expr] = vals
+                r.evals += 1
+                r.nontrivial += 1
+                try:
+                    tgt[expr] = vals
+                    gst = "ok"
+                except Exception as e:  # noqa
+                    gst = type(e).__name__
+                now = np.array(da[...])
+                compare_write(r, label + "-big", shape, win, expr, gst, ref, now, vals)
+                if not np.array_equal(now, ref0):
+                    da[...] = ref0
+    finally:
+        env.safe_close(f)
+        env.rm(path)
+
+
 def run_view(case, r):
     shape = tuple(case["shape"])
     win = [tuple(w) for w in case["win"]]
@@ -420,5 +494,5 @@ def run_text(case, r):
 
 def run_case(case):
     r = R()
-    {"array": run_array, "view": run_view, "text": run_text}[case["k"]](case, r)
+    {"array": run_array, "view": run_view, "text": run_text, "big": run_big}[case["k"]](case, r)
     return r
